@@ -507,8 +507,8 @@ PROPS["C03"]["unverified_links"] = [x for x in PROPS["C03"]["unverified_links"] 
     "the repo's `expect` on unstable_blocks::pop after an ingestion (no stable child any more, e.g. because set_config raised the stability threshold while the block was being ingested) ends the message: refuse mode, no longer a stated precondition"]
 
 _amend("C20", "level_note", "the CONTENT of the per-address delta lists (only their keys)",
-       "the content of the per-address REMOVED lists (the ADDED lists are verified: exactly the block's outputs paying the address, in block order)")
+       "the exact content of the per-address REMOVED lists (verified: every outpoint listed there is spent by a non-null input of the block — all_spent; not verified: under which address, how often and in which order. The ADDED lists are verified exactly: the block's outputs paying the address, in block order)")
 _relink("C20", "content of added_outpoints / removed_outpoints per address",
-        "content of removed_outpoints per address (which spent outputs, resolved through cache / same block / UTXO set): only the key set is specified; the added_outpoints lists ARE specified (added_for)")
+        "content of removed_outpoints per address: verified that every listed outpoint is the previous output of a non-null input of the block (all_spent); the address it is filed under (resolved through cache / same block / UTXO set), multiplicity and order are not specified; the added_outpoints lists ARE specified exactly (added_for)")
 _amend("C20", "level_text", "and records the block's two deltas under its hash,",
        "and records the block's two deltas under its hash — the added delta of an address being exactly the block's outputs that pay it, in block order —,")
